@@ -11,6 +11,21 @@ int main(int argc, char** argv) {
     Replay r(argv[1]);
     std::string ob = r.str("obligation");
     int bad = 0;
+    if (r.str("unit") == "dns.update_records_bounds") {
+        // the witness record area (W_b0.., as many octets as the witness names, at most 18) as the authority section of a message
+        // with no question: DNS::DNS accepts it (same validator as the unit), then add_answer walks it. Run under ASan.
+        size_t n = 0; while (n < 18) { char k[16]; snprintf(k, sizeof k, "W_b%zu", n); if (!r.has(k)) break; ++n; }
+        if (n == 0) { static const uint8_t dflt[] = {1,'b',0, 0,2, 0,1, 0,0,0,60, 0,1, 0x3f}; n = sizeof dflt; }
+        std::vector<uint8_t> msg = {0x12,0x34, 0x81,0x80, 0,0, 0,0, 0,(uint8_t)r.num("W_count", 1), 0,0};
+        for (size_t i = 0; i < n; ++i) { char k[16]; snprintf(k, sizeof k, "W_b%zu", i); static const uint8_t dflt[] = {1,'b',0, 0,2, 0,1, 0,0,0,60, 0,1, 0x3f}; msg.push_back(r.has(k) ? (uint8_t)r.num(k) : dflt[i % sizeof dflt]); }
+        ExactBuf in(msg);
+        try {
+            DNS dns(in.p, (uint32_t)msg.size());
+            dns.add_answer(DNS::resource("a", "192.0.2.1", DNS::A, DNS::IN, 60));
+            printf("add_answer returned\n");
+        } catch (const exception_base& e) { printf("rejected with a libtins exception: %s\n", e.what()); }
+        return 0;       // a defect shows as an ASan report (exit 99)
+    }
     if (r.str("unit") == "dns.insertion_plan") {
         // compressed message: 1 question, 0 answers, 1 authority, 2 additional; the second additional record's owner is a
         // pointer to the first one's owner (message offset 51, i.e. after every splice point): each add_* must leave all
